@@ -383,7 +383,17 @@ Value icinga::operator%(const Value& lhs, const Value& rhs)
 		if (static_cast<double>(rhs) == 0)
 			BOOST_THROW_EXCEPTION(std::invalid_argument("Right-hand side argument for operator % is 0."));
 
-		return static_cast<int>(lhs) % static_cast<int>(rhs);
+		int divisor = static_cast<int>(rhs);
+
+		/* The operands are truncated to integers: 0.5 becomes 0 as well. */
+		if (divisor == 0)
+			BOOST_THROW_EXCEPTION(std::invalid_argument("Right-hand side argument for operator % is 0."));
+
+		/* INT_MIN % -1 overflows (SIGFPE on x86), the remainder is 0 for every left-hand side anyway. */
+		if (divisor == -1)
+			return 0;
+
+		return static_cast<int>(lhs) % divisor;
 	} else
 		BOOST_THROW_EXCEPTION(std::invalid_argument("Operator % cannot be applied to values of type '" + lhs.GetTypeName() + "' and '" + rhs.GetTypeName() + "'"));
 }
